@@ -16,6 +16,8 @@ type qsel struct {
 	argV  int64  // numeric argument (tag.x, a.i)
 	argS  *string
 	sub   *qset
+	dir   string // printed directives, "" if none
+	skip  bool   // the directives exclude this selection
 }
 
 func (s *qsel) key() string {
@@ -29,6 +31,8 @@ type qfrag struct {
 	on    string
 	named string // "" = inline
 	set   *qset
+	dir   string // printed directives of this spread / inline fragment
+	skip  bool   // the directives exclude it
 }
 
 type qset struct {
@@ -44,7 +48,7 @@ type fdef struct {
 }
 
 var schemaFields = map[string][]fdef{
-	"Query": {{"as", "A", true, ""}, {"a", "A", false, "i"}, {"us", "U", true, ""}, {"u1", "U", false, ""}, {"bs", "B", true, ""}, {"n", "Int", false, ""}, {"ds", "D", true, ""}},
+	"Query": {{"as", "A", true, ""}, {"a", "A", false, "i"}, {"us", "U", true, ""}, {"u1", "U", false, ""}, {"bs", "B", true, ""}, {"n", "Int", false, ""}, {"ds", "D", true, ""}, {"bs2", "B", true, ""}},
 	"Mutation": {{"touchA", "A", false, "i"}, {"touchP", "P", false, "i"}},
 	"P":     {{"n", "Int", false, ""}, {"a", "A", false, ""}},
 	"D":     {{"id", "Int", false, ""}, {"tags", "String", true, ""}, {"v", "Int", false, ""}},
@@ -70,6 +74,8 @@ func isObj(t string) bool {
 type gen struct {
 	noD    bool // the federated schema has no D type
 	nb     bool // select the non-null field A.nb as well
+	bs2    bool // select the root field bs2 (served by a non-root service in the federated world)
+	dirs   bool // the query declares $t / $f and carries @skip / @include directives
 	c      *runner.Ctx
 	w      *world
 	named  []*qfrag // named fragment definitions
@@ -213,6 +219,9 @@ func (g *gen) genSelWith(typ string, depth int, plain bool) *qsel {
 		if !g.nb && f.name == "nb" {
 			f = fields[0]
 		}
+		if !g.bs2 && f.name == "bs2" {
+			f = fields[0]
+		}
 		if !isObj(f.typ) || depth < 4 || tries > 8 {
 			break
 		}
@@ -286,16 +295,16 @@ func (s *qset) print(sb *strings.Builder) {
 		if sel.alias != "" {
 			sb.WriteString(sel.alias + ": ")
 		}
-		sb.WriteString(sel.name + sel.arg + " ")
+		sb.WriteString(sel.name + sel.arg + " " + sel.dir)
 		if sel.sub != nil {
 			sel.sub.print(sb)
 		}
 	}
 	for _, f := range s.frags {
 		if f.named != "" {
-			sb.WriteString("..." + f.named + " ")
+			sb.WriteString("..." + f.named + " " + f.dir)
 		} else {
-			sb.WriteString("... on " + f.on + " ")
+			sb.WriteString("... on " + f.on + " " + f.dir)
 			f.set.print(sb)
 		}
 	}
@@ -304,7 +313,10 @@ func (s *qset) print(sb *strings.Builder) {
 
 func (g *gen) text(root *qset, opName string) string {
 	var sb strings.Builder
-	if opName != "" {
+	switch {
+	case g.dirs:
+		sb.WriteString("query " + opName + "($t: Boolean, $f: Boolean) ")
+	case opName != "":
 		sb.WriteString("query " + opName + " ")
 	}
 	root.print(&sb)
@@ -356,10 +368,60 @@ func flatten(set *qset, out *[]*qsel, seen map[*qset]bool) {
 		return
 	}
 	seen[set] = true
-	*out = append(*out, set.sels...)
-	for _, f := range set.frags {
-		flatten(f.set, out, seen)
+	for _, s := range set.sels {
+		if !s.skip {
+			*out = append(*out, s)
+		}
 	}
+	for _, f := range set.frags {
+		if !f.skip {
+			flatten(f.set, out, seen)
+		}
+	}
+}
+
+// dirVars are the variables the generated directives refer to.
+func dirVars() map[string]interface{} { return map[string]interface{}{"t": true, "f": false} }
+
+// decorate attaches @skip / @include directives to some selections, inline
+// fragments and fragment spreads of a generated query (every node once; the
+// body of a named fragment is shared by its spreads, each spread has its own
+// directives).
+func (g *gen) decorate(root *qset) {
+	forms := []struct {
+		text string
+		skip bool
+	}{
+		{"@skip(if: true) ", true}, {"@skip(if: false) ", false}, {"@include(if: true) ", false}, {"@include(if: false) ", true},
+		{"@skip(if: $t) ", true}, {"@skip(if: $f) ", false}, {"@include(if: $t) ", false}, {"@include(if: $f) ", true},
+		// both directives: the selection stays only if neither excludes it
+		{"@skip(if: false) @include(if: $f) ", true}, {"@include(if: true) @skip(if: $t) ", true}, {"@include(if: $t) @skip(if: false) ", false},
+	}
+	draw := func() (string, bool) {
+		if g.c.Choose(6, "directive") != 1 {
+			return "", false
+		}
+		g.c.Probe("directive-generated")
+		f := forms[g.c.Choose(len(forms), "directive-form")]
+		return f.text, f.skip
+	}
+	seen := map[*qset]bool{}
+	var walk func(s *qset)
+	walk = func(s *qset) {
+		if s == nil || seen[s] {
+			return
+		}
+		seen[s] = true
+		for _, sel := range s.sels {
+			sel.dir, sel.skip = draw()
+			walk(sel.sub)
+		}
+		for _, f := range s.frags {
+			f.dir, f.skip = draw()
+			walk(f.set)
+		}
+	}
+	walk(root)
 }
 
 func path(p []string, s ...string) []string {
@@ -482,7 +544,7 @@ func (e *evaluator) field(typ string, id int64, s *qsel, merged []*qsel, unionSe
 			return nil
 		}
 		return one("A", int(id))
-	case "Query.bs":
+	case "Query.bs", "Query.bs2":
 		return list("B", w.rootBs)
 	case "Query.ds":
 		out := []interface{}{}
@@ -563,7 +625,7 @@ func (e *evaluator) union(r ref, sets []*qset, p []string) interface{} {
 	seen := map[*qset]bool{}
 	for _, set := range sets {
 		for _, f := range set.frags {
-			if f.on == r.typ {
+			if f.on == r.typ && !f.skip {
 				applicable = true
 				flatten(f.set, &sels, seen)
 			}
@@ -571,7 +633,7 @@ func (e *evaluator) union(r ref, sets []*qset, p []string) interface{} {
 	}
 	for _, set := range sets {
 		for _, s := range set.sels {
-			if s.name == "__typename" {
+			if s.name == "__typename" && !s.skip {
 				sels = append(sels, s)
 			}
 		}
@@ -618,6 +680,77 @@ func doomedQuery(c *runner.Ctx) (string, map[string]interface{}) {
 		vars["v"] = "true"
 	case 3:
 		vars["v"] = map[string]interface{}{"if": true}
+	}
+	return texts[k], vars
+}
+
+
+// wildJSON draws an arbitrary JSON value (depth-limited).
+func wildJSON(c *runner.Ctx, depth int) interface{} {
+	n := 12
+	if depth >= 3 {
+		n = 8
+	}
+	switch c.Choose(n, "wild-json") {
+	case 0:
+		return nil
+	case 1:
+		return true
+	case 2:
+		return float64(c.Choose(3, "wild-int") - 1)
+	case 3:
+		return 1.5
+	case 4:
+		return 1e30
+	case 5:
+		return []string{"", "ONE", "x", "1"}[c.Choose(4, "wild-string")]
+	case 6:
+		return -9.3e18
+	case 7:
+		return []interface{}{}
+	case 8:
+		var l []interface{}
+		for i, k := 0, 1+c.Choose(2, "wild-list-len"); i < k; i++ {
+			l = append(l, wildJSON(c, depth+1))
+		}
+		return l
+	default:
+		m := map[string]interface{}{}
+		keys := []string{"a", "b", "l", "m", "e", "x", "y", "zz"}
+		for i, k := 0, c.Choose(4, "wild-obj-len"); i < k; i++ {
+			m[keys[c.Choose(len(keys), "wild-key")]] = wildJSON(c, depth+1)
+		}
+		return m
+	}
+}
+
+// wildQuery draws a request whose arguments and variables are arbitrary: the
+// server may answer with data or with an error, it must not crash or hang.
+func wildQuery(c *runner.Ctx) (string, map[string]interface{}) {
+	texts := []string{
+		`query Q($v: probeIn_InputObject) { probe(o: $v, s: [1, 2], f: 1.5, b: true, u: 1, i32: 1, str: "x") }`,
+		`query Q($v: [int64!]) { probe(s: $v, f: 1, b: false, u: 0, i32: 0, str: "") }`,
+		`query Q($v: float64) { probe(s: [], f: $v, b: false, u: $v, i32: $v, str: "", p: $v) }`,
+		`query Q($v: string) { probe(s: [], f: 0, b: $v, u: 0, i32: 0, str: $v) }`,
+		`{ probe(o: {a: 1, l: [{x: true}], e: ONE}, s: [1], f: 1, b: true, u: 1, i32: 1, str: "s") }`,
+		`{ probe(o: {a: "1", l: {x: true}, e: THREE, zz: 1}, s: 1, f: "f", b: 1, u: -1, i32: 99999999999, str: 5) }`,
+		`{ probe(o: {a: 99999999999999999999999, m: {x: 1, y: "y"}}, s: [1.5, "2", null], f: 1e999, b: true, u: 256, i32: 1.5, str: "s") }`,
+		`{ probe }`,
+		`{ probe(o: null, s: null, f: null, b: null, u: null, i32: null, str: null, p: null) }`,
+		`query Q($v: int64) { a(i: $v) { id tag(x: $v) b { label(p: $v) } } }`,
+		`{ a(i: 1.5) { id } al: a(i: "0") { id } a2: a(i: [0]) { id } }`,
+		`{ a(i: 0) { tag(x: 99999999999999999999) } }`,
+		`{ a(i: 0, i: 1) { id } }`,
+		`{ a(j: 0) { id } }`,
+		`{ a { id } }`,
+		`query Q($v: int64 = 0) { a(i: $v) { id } }`,
+		`query Q($v: int64! = 0) { a(i: $v) { id } }`,
+		`query Q($v: [[int64]]) { n @skip(if: $v) }`,
+	}
+	k := c.Choose(len(texts), "wild-query")
+	vars := map[string]interface{}{}
+	if c.Choose(5, "wild-no-var") != 0 {
+		vars["v"] = wildJSON(c, 0)
 	}
 	return texts[k], vars
 }
